@@ -51,6 +51,44 @@ def run_job(job, kill_after):
     return res
 
 
+def run_batch(jobs, kill_after):
+    """several jobs in one worker process (amortises interpreter + import cost); returns results in order"""
+    fd, outp = tempfile.mkstemp(prefix='symx_out_', suffix='.json')
+    os.close(fd)
+    os.unlink(outp)
+    fd, jobp = tempfile.mkstemp(prefix='symx_job_', suffix='.json')
+    with os.fdopen(fd, 'w') as f:
+        json.dump(dict(batch=jobs), f)
+    env = dict(os.environ)
+    env['PYTHONPATH'] = HERE + os.pathsep + env.get('PYTHONPATH', '')
+    env['OPENMDAO_REPORTS'] = '0'
+    env['PYTHONDONTWRITEBYTECODE'] = '1'
+    env.pop('OPENMDAO_NO_RELEVANCE', None)
+    note = None
+    out = b''
+    try:
+        p = subprocess.run([sys.executable, '-m', 'symx.worker', outp, jobp], env=env, cwd=HERE,
+                           stdout=subprocess.PIPE, stderr=subprocess.STDOUT, timeout=kill_after)
+        out = p.stdout
+    except subprocess.TimeoutExpired:
+        note = f'worker killed after {kill_after}s (wall-clock backstop)'
+    try:
+        results = json.load(open(outp))
+    except Exception:
+        results = []
+    for f in (outp, jobp, outp + '.tmp'):
+        try:
+            os.unlink(f)
+        except OSError:
+            pass
+    for i, j in enumerate(jobs):
+        if i >= len(results):
+            results.append(dict(ok=False, error=note or ('worker crashed: ' + out.decode(errors='replace')[-3000:]),
+                                error_type='Timeout' if note else 'WorkerCrash'))
+        results[i]['job'] = {k: j.get(k) for k in ('check', 'fn', 'params', 'mode')}
+    return results
+
+
 def load_known():
     p = os.path.join(HERE, 'known_findings.json')
     if not os.path.exists(p):
@@ -111,10 +149,12 @@ def main(argv=None):
         j.setdefault('wall_s', 120 if tier == 'quick' else 900)
     known = load_known()
     results = []
+    nb = min(len(jobs), 2 * a.jobs) or 1
+    batches = [jobs[i::nb] for i in range(nb)]
     with cf.ThreadPoolExecutor(max_workers=a.jobs) as pool:
-        futs = {pool.submit(run_job, j, j['wall_s'] + 90): j for j in jobs}
+        futs = [pool.submit(run_batch, b, sum(j['wall_s'] for j in b) + 90) for b in batches]
         for f in cf.as_completed(futs):
-            results.append(f.result())
+            results.extend(f.result())
     results.sort(key=lambda r: (r['job']['fn'], json.dumps(r['job']['params'], sort_keys=True)))
 
     # ---------------- aggregate
